@@ -338,6 +338,7 @@ type nEntry struct {
 	password  string
 	hasLogin  bool
 	pwFirst   bool
+	noPw      bool // a login-only stub (`machine h login anonymous`): the entry IS the host's entry and has nothing to send
 }
 
 // tokenBuilder builds a netrc text as the alternating word / whitespace token list go-netrc's
@@ -397,6 +398,9 @@ func renderNetrc(r *hx.Rand, es []nEntry, plain bool) []string {
 			}
 		}
 		pw := func() {
+			if e.noPw {
+				return
+			}
 			b.space(fs())
 			b.word("password")
 			b.space(in())
@@ -472,6 +476,9 @@ func describe(es []nEntry) []map[string]any {
 	var out []map[string]any
 	for _, e := range es {
 		m := map[string]any{"password": e.password}
+		if e.noPw {
+			m = map[string]any{"no_password": true}
+		}
 		if e.isDefault {
 			m["default"] = true
 		} else {
@@ -494,7 +501,15 @@ func judgeNetrc(run *hx.Run, section string, idx int, es []nEntry, text string, 
 	input := map[string]any{"netrc": text, "entries": describe(es), "host": host, "got": got, "want": want}
 	class := "netrc-lookup-wrong"
 	what := fmt.Sprintf(".netrc lookup for %q returned %q, the file configures %q", host, got, want)
-	if got != "" {
+	if _, from := specNetrc(es, host); got != "" && from >= 0 && !es[from].isDefault {
+		for _, e := range es {
+			if e.isDefault && e.password == got {
+				class = "netrc-default-sent-despite-own-entry"
+				what = fmt.Sprintf("host %q has its own machine entry (%s), yet the password %q of the `default` entry is sent to it", host, map[bool]string{true: "a login-only stub without password", false: "with another password"}[es[from].noPw], got)
+			}
+		}
+	}
+	if got != "" && class == "netrc-lookup-wrong" {
 		for _, e := range es {
 			if e.password == got && !e.isDefault && e.name != host {
 				class = "netrc-token-sent-to-other-host"
@@ -506,7 +521,7 @@ func judgeNetrc(run *hx.Run, section string, idx int, es []nEntry, text string, 
 				break
 			}
 		}
-	} else if hasKeywordValue(es) {
+	} else if got == "" && hasKeywordValue(es) {
 		// the token is withheld, not leaked: not a violation of this property; counted only
 		run.Count(section + ":keyword-value-token-withheld")
 		return
@@ -568,10 +583,17 @@ func genEntries(r *hx.Rand, names []string, tag string) []nEntry {
 	for i := 0; i < n; i++ {
 		e := nEntry{name: hx.Pick(r, names), login: hx.Pick(r, valueWords), hasLogin: !r.Chance(1, 6), pwFirst: r.Chance(1, 4)}
 		e.password = fmt.Sprintf("%s%d-%s", tag, i, hx.Pick(r, valueWords))
+		if r.Chance(1, 5) {
+			// password-less stub; keep a login so that the entry is not empty
+			e.noPw, e.password, e.hasLogin = true, "", true
+		}
 		es = append(es, e)
 	}
 	if r.Chance(1, 2) {
 		d := nEntry{isDefault: true, login: hx.Pick(r, valueWords), hasLogin: !r.Chance(1, 6), pwFirst: r.Chance(1, 4), password: tag + "D-" + hx.Pick(r, valueWords)}
+		if r.Chance(1, 10) {
+			d.noPw, d.password, d.hasLogin = true, "", true
+		}
 		at := r.Intn(len(es) + 1)
 		if r.Chance(2, 3) {
 			at = len(es)
@@ -1019,8 +1041,15 @@ func main() {
 	tmp, err := os.MkdirTemp("", "verif-c19-")
 	must(err)
 	defer os.RemoveAll(tmp)
-	os.Unsetenv("HTTP_PROXY")
-	os.Unsetenv("http_proxy")
+	// the fake network of section R is reached through HTTP_PROXY; net/http reads the proxy
+	// environment once per process, so it is set before any transport exists (requests to the
+	// loopback registries of sections D/E never go through a proxy)
+	nw := newNetwork()
+	defer nw.srv.Close()
+	os.Setenv("HTTP_PROXY", nw.srv.URL)
+	os.Setenv("http_proxy", nw.srv.URL)
+	os.Unsetenv("NO_PROXY")
+	os.Unsetenv("no_proxy")
 	ne := &netrcEnv{dir: tmp}
 	if run.Only < 0 {
 		sectionA(run, r.Fork(1))
@@ -1030,6 +1059,7 @@ func main() {
 	sectionC(run, r.Fork(3), ne)
 	sectionD(run, r.Fork(4), ne)
 	sectionE(run, r.Fork(5), ne)
+	sectionR(run, r.Fork(6), ne, nw)
 	keys := []string{}
 	for _, h := range fixedHosts {
 		keys = append(keys, h)
